@@ -394,7 +394,8 @@ func c16CheckString(ctx *engine.Ctx, rc any, s string, tag string) {
 }
 
 type c16StrCase struct {
-	S string `json:"s"`
+	S      string `json:"s"`
+	Before string `json:"before,omitempty"` // an identifier parsed (and its key extracted) immediately before S
 }
 
 func (c *c16StrCase) Weight() int { return len(c.S) }
@@ -406,9 +407,9 @@ func c16StringsSub() *engine.Sub {
 	return &engine.Sub{
 		Name:   "parser-inputs",
 		Repeat: true,
-		Rule:   "strings offered to did.Parse: every base58 string up to the length bound after 'did:key:z'; every 1- and 2-byte multicodec varint (16512) in front of an Ed25519, a P-256 and an empty body; every ASCII character as multibase prefix in front of a valid body; prefix mutations of 'did:key:'. Unsupported codes, non-base58btc multibases and wrong prefixes must be rejected; whatever parses must print back identically and PubKey must return a key or an error without panicking, canonically; non-trivial = parser accepts",
+		Rule:   "strings offered to did.Parse: every base58 string up to the length bound after 'did:key:z'; every 1- and 2-byte multicodec varint (16512) in front of an Ed25519, a P-256 and an empty body; every ASCII character as multibase prefix in front of a valid body; prefix mutations of 'did:key:'; for one key of each of the 7 algorithms the canonical identifier decorated with the rest of the DID grammar (version segments, fragments incl. the verification-method form <did>#<id>, parameters, query, path, percent-encoding, repetition; 31 forms); 15 pairs of valid identifiers that collide under FNV-1 / FNV-1a / CRC-32 / Adler-32, one parsed right after the other. Unsupported codes, non-base58btc multibases and wrong prefixes must be rejected; whatever parses must print back identically and PubKey must return a key or an error without panicking, canonically; non-trivial = parser accepts",
 		Bound: func(t string) string {
-			return fmt.Sprintf("base58 strings of length <=%d; 16512 codes x 3 bodies; 128 multibase prefixes; 40 prefix mutations", tierN(t, 3, 4))
+			return fmt.Sprintf("base58 strings of length <=%d; 16512 codes x 3 bodies; 128 multibase prefixes; 40 prefix mutations; 7 x 31 grammar decorations", tierN(t, 3, 4))
 		},
 		Gen: func(tier string, emit func(any) bool) {
 			alpha := strings.Split(b58Alphabet, "")
@@ -450,10 +451,42 @@ func c16StringsSub() *engine.Sub {
 					return
 				}
 			}
+			// the rest of the DID / did:key grammar around the canonical identifier of one key per algorithm:
+			// version segments, fragments (the verification-method form did:key:<id>#<id>), parameters, paths,
+			// percent-encoding, repetition. A did:key principal has ONE accepted spelling.
+			for _, alg := range fixtures.Algs() {
+				k := fixtures.Get(alg, 0)
+				if k.Err != nil {
+					continue
+				}
+				full := k.DID.String()
+				id := full[len("did:key:"):]
+				for _, m := range []string{"did:key:1:" + id, "did:key:0:" + id, "did:key:2:" + id, "did:key:01:" + id, "did:key:1.0:" + id, "did:key:v1:" + id, "did:key:1::" + id, "did:key:" + id + ":1",
+					full + "#" + id, full + "#" + full, full + "#", full + "#key-1", full + "#" + id + "#" + id, full + "#" + id[:len(id)-1], full + "#" + strings.ToUpper(id),
+					full + ";v=1", full + "?versionId=1", full + "?", full + "/", full + "/x#" + id, full + ":" + id, full + id, "did:key:" + id + "\x00", "did:key:%7A" + id[1:], "did%3Akey%3A" + id,
+					"did:key:" + id + "=", "did:key:" + id + "==", "did:key:\t" + id, "did:key:" + id + "\r\n", "urn:did:key:" + id, "did:key:did:key:" + id} {
+					if !emit(&c16StrCase{S: m}) {
+						return
+					}
+				}
+			}
+			// pairs of valid identifiers whose texts collide under a 32-bit hash of the standard library, one parsed
+			// right after the other, in both orders (see C01's principals-with-colliding-identifiers)
+			for _, col := range fixtures.Collisions() {
+				if !emit(&c16StrCase{S: col.X, Before: col.Y}) || !emit(&c16StrCase{S: col.Y, Before: col.X}) {
+					return
+				}
+			}
 		},
 		NewCase: func() any { return &c16StrCase{} },
 		Run: func(ctx *engine.Ctx, c any) {
 			cs := c.(*c16StrCase)
+			if cs.Before != "" {
+				if b, err := did.Parse(cs.Before); err == nil {
+					_, _, _ = safePubKey(b)
+				}
+				_, _, _ = safeToPubKey(cs.Before)
+			}
 			d, err := did.Parse(cs.S)
 			if err == nil {
 				// independent decision: must be did:key: + z + base58 with a supported, minimally encoded multicodec
